@@ -10,10 +10,11 @@
   computed (end records — both forms —, every central record — raw re-emission and re-synthesis incl. the
   ZIP64 extra —, every local header and descriptor, the ordering clause).
 
-  Exact class: input `Spec.Zip`-valid, `relicReadable`, members contiguous from offset 0 (`contigFrom`),
-  every extra field at most 65507 bytes (beyond that the ZIP64 extra that `GetDirectoryHeader` prepends to a
-  re-synthesised ≥ 4 GiB record overflows the 16-bit length: `write_read_roundtrip_readable` without this
-  clause stays a `def`).
+  Exact class: input `Spec.Zip`-valid, `relicReadable`, members contiguous from offset 0 (`contigFrom`).  The code as it
+  stands (fix-F7g) REFUSES — error of `GetDirectoryHeader`, nothing written — exactly when a kept member that moves and
+  needs the ZIP64 field has an extra block of more than 65507 bytes (`rewrite_refuses_iff`, `keptRoomS`); in every other
+  case the statements below hold, so `write_read_roundtrip_readable` is a theorem at full strength.  Before fix-F7g the
+  16-bit length was truncated silently and the directory written was unreadable: `extraRoom_necessary_orig`.
 -/
 import Relic.Props.C17
 import Relic.Proofs.ZipStreamSpec
@@ -42,7 +43,7 @@ def extraRoom (a : SpecZip.Archive) : Prop := ∀ sm ∈ a.members, sm.entry.ext
 instance (a : SpecZip.Archive) : Decidable (extraRoom a) := by unfold extraRoom; infer_instance
 
 /-- **rewrite_roundtrip.** The general statement for the rewrite the harness drives (`rewriteWith`: delete mask,
-    added members, `forceZip64`): for every readable, contiguous input with room in the extra fields, every list
+    added members, `forceZip64`): for every readable, contiguous input, every list
     of well-formed requests (`NewOK`: lengths that fit their fields, stored ⇒ sizes equal, directory entry ⇒ empty)
     and every DOS time/date, if relic produces an output (below 2^64 bytes when something is added) then
     that output is a valid archive and a standard reader sees exactly: the kept members in input order —
@@ -55,7 +56,7 @@ instance (a : SpecZip.Archive) : Decidable (extraRoom a) := by unfold extraRoom;
     everything leaves the 22-byte empty archive) and below 2^63 bytes. -/
 theorem rewrite_roundtrip (z : Bytes) (a : SpecZip.Archive) (mask : List Bool) (force : Bool) (mt md : Nat)
     (news : List NewMember) (out : Bytes)
-    (ha : SpecZip.parse z = some a) (hc : contigFrom a 0 a.members = true) (hr : relicReadable z) (hx : extraRoom a)
+    (ha : SpecZip.parse z = some a) (hc : contigFrom a 0 a.members = true) (hr : relicReadable z)
     (hmt : mt < 2 ^ 16) (hmd : md < 2 ^ 16) (hnews : ∀ n ∈ news, NewOK n)
     (hbound : news = [] ∨ out.length < 2 ^ 64)
     (h : rewriteWith z mask force mt md news = .ok out) :
@@ -68,7 +69,7 @@ theorem rewrite_roundtrip (z : Bytes) (a : SpecZip.Archive) (mask : List Bool) (
   have hfix' : (a.members.all fun m => fixedNeed m.entry.need) = true := by
     simpa [SpecZip.zip64Fixed, fixedNeed] using hfix
   rw [contigFrom_eq] at hc
-  obtain ⟨kms, a', hM, hsm, hp', hview, _, _, _, _, hR⟩ := rewriteWith_parses ha hnc.1 hnc.2 h63 hfix' hsg hw hc hx mask force mt md hmt hmd
+  obtain ⟨kms, a', hM, hsm, hp', hview, _, _, _, _, hR⟩ := rewriteWith_parses ha hnc.1 hnc.2 h63 hfix' hsg hw hc mask force mt md hmt hmd
     news hnews out h hbound
   refine ⟨by unfold SpecZip.valid; rw [hp']; rfl, ?_, ?_⟩
   · obtain ⟨e1, e2⟩ := keptViews_S kms mask _ 0 hM
@@ -77,16 +78,57 @@ theorem rewrite_roundtrip (z : Bytes) (a : SpecZip.Archive) (mask : List Bool) (
     obtain ⟨r1, r2, r3, r4⟩ := hR hnr h42
     exact ⟨a', hp', r1, r2, r3, r4, ho63⟩
 
-/-- **write_read_roundtrip_readable_partial.** The statement `write_read_roundtrip_readable` (Props/C17.lean) with the
-    one clause it lacks (`extraRoom`): what `Mangle` + `MakePatch` write from a readable, contiguous archive —
-    whatever is deleted, ZIP64 records forced or not — is a valid archive, and it holds exactly the kept members. -/
-theorem write_read_roundtrip_readable_partial : ∀ z a mask force out, SpecZip.parse z = some a →
-    contigFrom a 0 a.members = true → relicReadable z → extraRoom a → rewriteKeep z mask force = .ok out →
-    SpecZip.valid out ∧ specView out = some (keptViewsS z a mask a.members 0) := by
-  intro z a mask force out ha hc hr hx h
+/-- **write_read_roundtrip_readable.** (Full strength, code with fix-F7g.)  What `Mangle` + `MakePatch` write from a readable,
+    contiguous archive — whatever is deleted, ZIP64 records forced or not — is a valid archive. -/
+theorem write_read_roundtrip_readable : ∀ z a mask force out, SpecZip.parse z = some a → contigFrom a 0 a.members = true →
+    relicReadable z → rewriteKeep z mask force = .ok out → SpecZip.valid out := by
+  intro z a mask force out ha hc hr h
   rw [rewriteKeep_eq] at h
-  have := rewrite_roundtrip z a mask force 0 0 [] out ha hc hr hx (by omega) (by omega) (fun _ h => by cases h) (Or.inl rfl) h
-  exact ⟨this.1, by simpa [newViews] using this.2.1⟩
+  exact (rewrite_roundtrip z a mask force 0 0 [] out ha hc hr (by omega) (by omega) (fun _ h => by cases h) (Or.inl rfl) h).1
+
+/-- **write_read_roundtrip_readable_views.** … and it holds exactly the kept members; it is again `relicReadable` unless it is
+    the 22-byte empty archive (or beyond 2^63). -/
+theorem write_read_roundtrip_readable_views : ∀ z a mask force out, SpecZip.parse z = some a → contigFrom a 0 a.members = true →
+    relicReadable z → rewriteKeep z mask force = .ok out →
+    specView out = some (keptViewsS z a mask a.members 0) ∧ (42 ≤ out.length → out.length < 2 ^ 63 → relicReadable out) := by
+  intro z a mask force out ha hc hr h
+  rw [rewriteKeep_eq] at h
+  have := rewrite_roundtrip z a mask force 0 0 [] out ha hc hr (by omega) (by omega) (fun _ h => by cases h) (Or.inl rfl) h
+  exact ⟨by simpa [newViews] using this.2.1, fun h42 h63 => this.2.2 (fun _ h => by cases h) h42 h63⟩
+
+/-- **rewrite_refuses_iff.** When does the code with fix-F7g refuse?  For every readable contiguous input and well-formed
+    requests the rewrite ends in exactly one of two ways: an output, or the error of `GetDirectoryHeader` — the latter
+    iff some kept member that moves and needs the ZIP64 field (a size, or its new offset, ≥ 0xffffffff) has more than
+    65507 bytes of extra field (`keptRoomS` false).  The refusal is clean: the result carries no bytes (`MakePatch` /
+    `WriteDirectory` return the error before any patch exists). -/
+theorem rewrite_refuses_iff (z : Bytes) (a : SpecZip.Archive) (mask : List Bool) (force : Bool) (mt md : Nat) (news : List NewMember)
+    (ha : SpecZip.parse z = some a) (hc : contigFrom a 0 a.members = true) (hr : relicReadable z)
+    (hnews : ∀ n ∈ news, NewOK n) :
+    (rewriteWith z mask force mt md news = .err "extratoolong" ↔ keptRoomS a mask a.members 0 = false) ∧
+    ((∃ out, rewriteWith z mask force mt md news = .ok out) ↔ keptRoomS a mask a.members 0 = true) ∧
+    (extraRoom a → ∃ out, rewriteWith z mask force mt md news = .ok out) := by
+  obtain ⟨a', ha', hnc, hsg, hfix, hw, h63⟩ := hr
+  rw [ha] at ha'; cases ha'
+  simp only [SpecZip.noComment, Bool.and_eq_true, List.isEmpty_iff, decide_eq_true_eq] at hnc
+  have hfix' : (a.members.all fun m => fixedNeed m.entry.need) = true := by
+    simpa [SpecZip.zip64Fixed, fixedNeed] using hfix
+  rw [contigFrom_eq] at hc
+  obtain ⟨kms0, hM0, hsm0, _, _, heq⟩ := rewriteWith_eq ha hnc.1 hnc.2 h63 hfix' hsg hw hc mask force mt md news
+  have hk : headersOK (rewriteFiles z (setMask mask kms0) mt md news) = keptRoomS a mask a.members 0 := by
+    unfold rewriteFiles
+    rw [headersOK_append, keptRoom_S kms0 mask _ 0 hM0, hsm0, newFiles_ok mt md news _ hnews, Bool.and_true]
+  rw [heq, hk]
+  cases hkr : keptRoomS a mask a.members 0
+  · refine ⟨by simp, by simp, ?_⟩
+    intro hx
+    have := keptRoomS_of_room a a.members mask 0 hx
+    rw [hkr] at this; cases this
+  · exact ⟨by simp, by simp, fun _ => ⟨_, rfl⟩⟩
+
+/-- the refusal is clean: no output exists beside the error -/
+theorem rewrite_refusal_clean (z : Bytes) (mask : List Bool) (force : Bool) (mt md : Nat) (news : List NewMember) (e : String)
+    (h : rewriteWith z mask force mt md news = .err e) : ∀ out, rewriteWith z mask force mt md news ≠ .ok out := by
+  intro out h'; rw [h] at h'; cases h'
 
 /-- **rewrite_roundtrip_small.** Below 4 GiB (every kept size and the whole output) nothing is re-synthesised with a
     ZIP64 extra: the standard reader sees the input's views of the kept members, unchanged, then the requested
@@ -94,7 +136,7 @@ theorem write_read_roundtrip_readable_partial : ∀ z a mask force out, SpecZip.
 theorem rewrite_roundtrip_small (z : Bytes) (a : SpecZip.Archive) (mask : List Bool) (force : Bool) (mt md : Nat)
     (news : List NewMember) (out : Bytes) (vin : List View)
     (hv : specView z = some vin) (ha : SpecZip.parse z = some a) (hc : contigFrom a 0 a.members = true)
-    (hr : relicReadable z) (hx : extraRoom a) (hmt : mt < 2 ^ 16) (hmd : md < 2 ^ 16) (hnews : ∀ n ∈ news, NewOK n)
+    (hr : relicReadable z) (hmt : mt < 2 ^ 16) (hmd : md < 2 ^ 16) (hnews : ∀ n ∈ news, NewOK n)
     (hsmall : ∀ sm ∈ a.members, sm.entry.csize < u32Max ∧ sm.entry.usize < u32Max)
     (hnsmall : ∀ n ∈ news, n.compd.length < u32Max ∧ n.usize < u32Max) (hout : out.length < u32Max)
     (h : rewriteWith z mask force mt md news = .ok out) :
@@ -106,7 +148,7 @@ theorem rewrite_roundtrip_small (z : Bytes) (a : SpecZip.Archive) (mask : List B
   have hfix' : (a.members.all fun m => fixedNeed m.entry.need) = true := by
     simpa [SpecZip.zip64Fixed, fixedNeed] using hfix
   rw [contigFrom_eq] at hc
-  obtain ⟨kms, a', hM, hsm, hp', hview, _, _, hcd, _⟩ := rewriteWith_parses ha hnc.1 hnc.2 h63 hfix' hsg hw hc hx mask force
+  obtain ⟨kms, a', hM, hsm, hp', hview, _, _, hcd, _⟩ := rewriteWith_parses ha hnc.1 hnc.2 h63 hfix' hsg hw hc mask force
     mt md hmt hmd news hnews out h (Or.inr (by simp only [u32Max] at hout; omega))
   obtain ⟨e1, e2⟩ := keptViews_S kms mask _ 0 hM
   -- the directory of the output starts below 4 GiB
@@ -137,12 +179,12 @@ theorem rewrite_roundtrip_small (z : Bytes) (a : SpecZip.Archive) (mask : List B
 /-! ### relic's own output (second signing): the Mangler-style rewriter of Model/ZipRewrite.lean -/
 
 /-- **write_read_roundtrip_own_output.** `Mangle` (with the layout check) + `Mangler.NewFile` + `MakePatch` — the way VSIX
-    and AppX signing rewrite — on a readable archive with room in the extra fields: if it produces an output
+    and AppX signing rewrite — on a readable archive: if it produces an output
     (below 2^64 bytes), the input was contiguous in relic's measure, the output is a valid archive, and a
     standard reader sees the kept members (views as in the input up to `movedExtra`) followed by the added
     ones.  `kms` pairs every member of the input, as the specification sees it, with relic's measurement. -/
 theorem write_read_roundtrip_own_output (z : Bytes) (a : SpecZip.Archive) (mt md : Nat) (news : List NewMember) (force : Bool)
-    (out : Bytes) (ha : SpecZip.parse z = some a) (hr : relicReadable z) (hx : extraRoom a)
+    (out : Bytes) (ha : SpecZip.parse z = some a) (hr : relicReadable z)
     (hmt : mt < 2 ^ 16) (hmd : md < 2 ^ 16) (hnews : ∀ n ∈ news, NewOK n) (hbound : out.length < 2 ^ 64)
     (h : manglerRewrite z news mt md force = .ok out) :
     ∃ kms, MeasuredL z a a.ends.cdOff kms ∧ kms.map (·.2.1) = a.members ∧ contigK 0 kms a.ends.cdOff ∧
@@ -154,7 +196,7 @@ theorem write_read_roundtrip_own_output (z : Bytes) (a : SpecZip.Archive) (mt md
   simp only [SpecZip.noComment, Bool.and_eq_true, List.isEmpty_iff, decide_eq_true_eq] at hnc
   have hfix' : (a.members.all fun m => fixedNeed m.entry.need) = true := by
     simpa [SpecZip.zip64Fixed, fixedNeed] using hfix
-  obtain ⟨kms, a', hM, hsm, hp', hview, _, _, _, hck, _, hR⟩ := manglerRewrite_parses ha hnc.1 hnc.2 h63 hfix' hsg hw hx mt md hmt hmd
+  obtain ⟨kms, a', hM, hsm, hp', hview, _, _, _, hck, _, hR⟩ := manglerRewrite_parses ha hnc.1 hnc.2 h63 hfix' hsg hw mt md hmt hmd
     news hnews force out h hbound
   have hv : SpecZip.valid out := by unfold SpecZip.valid; rw [hp']; rfl
   refine ⟨kms, hM, hsm, hck, hv, hview, ?_⟩
@@ -163,11 +205,12 @@ theorem write_read_roundtrip_own_output (z : Bytes) (a : SpecZip.Archive) (mt md
   have hrd : relicReadable out := ⟨a', hp', r1, r2, r3, r4, ho63⟩
   exact ⟨hrd, read_agrees_spec_readable out hv hrd⟩
 
-/-- **extraRoom_necessary (F7g).** The extra-field clause cannot be dropped: when `GetDirectoryHeader` synthesises a ZIP64 record
+/-- **extraRoom_necessary_orig (F7g, the code BEFORE fix-F7g = the unguarded synthesis `getDirectoryHeader`).** Without the
+    guard the extra-field clause could not be dropped: when `GetDirectoryHeader` synthesises a ZIP64 record
     (`synthBig`) and the extra block with the prepended ZIP64 field reaches 65536 bytes, the 16-bit length it writes
     is short of the bytes it emits, and NO central record at all is decoded from what it wrote that fills it — a
     reader loses the directory behind this record.  (Replayed on the real code: `C17 wdx 65508 5 4294967296 9`.) -/
-theorem extraRoom_necessary (f : File) (hraw : f.raw = []) (hover : 2 ^ 16 ≤ (synthExtra f).length) : ∀ en, ¬ Emits f en := by
+theorem extraRoom_necessary_orig (f : File) (hraw : f.raw = []) (hover : 2 ^ 16 ≤ (synthExtra f).length) : ∀ en, ¬ Emits f en := by
   intro en ⟨he, hl⟩
   rw [getDirectoryHeader_synth f hraw] at he hl
   generalize hrv : (if synthBig f then 45 else f.reader) = rv at he hl
@@ -197,6 +240,29 @@ theorem bigExtra_length : bigExtra.length = 65508 := List.length_replicate
 def fBig : File :=
   { creator := 45, reader := 20, flags := 0, method := 0, mtime := 0, mdate := 0, crc := 0, csize := 5, usize := 2 ^ 32, name := [97],
     extra := bigExtra, comment := [], iattrs := 0, eattrs := 0, offset := 9, raw := [] }
+
+/-- **dirHeader_refuses_iff.** The code as it stands refuses exactly those entries (and synthesises every other one as before). -/
+theorem dirHeader_refuses_iff (f : File) :
+    (getDirectoryHeaderFx f = .err "extratoolong" ↔ (f.raw = [] ∧ synthBig f ∧ 2 ^ 16 ≤ (synthExtra f).length)) ∧
+    (getDirectoryHeaderFx f ≠ .err "extratoolong" → getDirectoryHeaderFx f = .ok (getDirectoryHeader f)) := by
+  unfold getDirectoryHeaderFx
+  have key : dirHeaderOK f = false ↔ (f.raw = [] ∧ synthBig f ∧ 2 ^ 16 ≤ (synthExtra f).length) := by
+    unfold dirHeaderOK synthBig synthExtra
+    by_cases hr : f.raw = []
+    · by_cases hb : f.csize ≥ u32Max ∨ f.usize ≥ u32Max ∨ f.offset ≥ u32Max
+      · have hb' : synthBig f := hb
+        simp only [hr, hb, decide_true, Bool.not_true, Bool.false_or, beq_self_eq_true, decide_eq_false_iff_not, true_and]
+        rw [if_pos hb']
+        simp only [List.length_append, z64Extra_length]
+        omega
+      · simp [hr, hb, synthBig]
+    · simp [hr]
+  cases h : dirHeaderOK f
+  · simp only [Bool.false_eq_true, if_false, true_iff, ne_eq, not_true_eq_false, false_implies, and_true]
+    exact key.mp h
+  · simp only [if_true]
+    refine ⟨⟨fun c => (by cases c), fun c => ?_⟩, fun _ => trivial⟩
+    rw [key.mpr c] at h; cases h
 
 example : fBig.raw = [] ∧ synthBig fBig ∧ 2 ^ 16 ≤ (synthExtra fBig).length := by
   have hb : synthBig fBig := Or.inr (Or.inl (by show (2 : Nat) ^ 32 ≥ u32Max; decide))
